@@ -22,6 +22,57 @@ pub enum SrcKind {
   Subject,
   /// endless polite producer of the given value (observables::repeat)
   Endless(i64),
+  /// one of the crate's creation functions (reference: its definition as a cold script)
+  Lib(LibSrc),
+}
+
+#[derive(Clone, Debug, PartialEq)]
+pub enum LibSrc {
+  Just(i64),
+  FromIter(Vec<i64>),
+  Range(i64, i64),
+  Empty,
+  Never,
+  Error(i64),
+  /// defer(|| just(v)) / defer(|| error(k))
+  DeferJust(i64),
+  DeferError(i64),
+  /// start(|| v)
+  Start(i64),
+  FromResultOk(i64),
+  FromResultErr(i64),
+  /// repeat(v).take(n)
+  RepeatTake(i64, usize),
+  SomethingSuccess(i64),
+  SomethingError(i64),
+}
+impl LibSrc {
+  pub fn script(&self) -> Vec<Ev> {
+    use LibSrc::*;
+    match self {
+      Just(v) | DeferJust(v) | Start(v) | FromResultOk(v) | SomethingSuccess(v) => vec![Ev::n(*v), Ev::C],
+      FromIter(v) => v.iter().map(|x| Ev::n(*x)).chain(std::iter::once(Ev::C)).collect(),
+      Range(a, k) => (*a..(*a + *k)).map(Ev::n).chain(std::iter::once(Ev::C)).collect(),
+      Empty => vec![Ev::C],
+      Never => vec![],
+      Error(k) | DeferError(k) | FromResultErr(k) | SomethingError(k) => vec![Ev::E(*k)],
+      RepeatTake(v, n) => {
+        if *n == 0 {
+          vec![Ev::C]
+        } else {
+          std::iter::repeat(Ev::n(*v)).take(*n).chain(std::iter::once(Ev::C)).collect()
+        }
+      }
+    }
+  }
+  pub fn all() -> Vec<LibSrc> {
+    use LibSrc::*;
+    vec![
+      Just(1), FromIter(vec![]), FromIter(vec![1]), FromIter(vec![1, 2, 3]), Range(1, 0), Range(1, 3), Range(2, 2), Empty, Never, Error(5),
+      DeferJust(2), DeferError(5), Start(3), FromResultOk(1), FromResultErr(5), RepeatTake(2, 0), RepeatTake(2, 1), RepeatTake(2, 3),
+      SomethingSuccess(1), SomethingError(5),
+    ]
+  }
 }
 
 #[derive(Clone, Debug)]
@@ -181,6 +232,19 @@ impl RefWorld {
           n += 1;
         }
       }
+      SrcKind::Lib(l) => {
+        for ev in l.script() {
+          if !self.srcs[i].insts[inst].alive {
+            break;
+          }
+          let t = ev.is_terminal();
+          self.srcs[i].insts[inst].emitted += 1;
+          self.emit_raw(node, ev);
+          if t {
+            self.srcs[i].insts[inst].alive = false;
+          }
+        }
+      }
       SrcKind::Cold { scripts, polite } => {
         if inst >= MAX_SUBSCRIPTIONS_PER_SOURCE {
           self.hit_subscription_cap = true;
@@ -302,6 +366,15 @@ impl RefWorld {
     match op {
       Op::Take(0) => {
         self.emit(id, Ev::C);
+      }
+      Op::ReadySetGo(script) => {
+        // subscribe first, then run the action (which emits into the hot input)
+        self.attach(id, 0, &input);
+        if let Node::Src(i) = input {
+          for ev in script {
+            self.hot_emit(i, ev);
+          }
+        }
       }
       Op::StartWith(v) => {
         for x in v {
@@ -431,7 +504,7 @@ impl RefWorld {
         }
         o => self.emit(id, o),
       },
-      Op::StartWith(_) => self.emit(id, ev),
+      Op::StartWith(_) | Op::ReadySetGo(_) => self.emit(id, ev),
       // ------------------------------------------------ early termination
       Op::Take(k) => match ev {
         N(x) => {
